@@ -127,9 +127,10 @@ impl RxCtrState {
             true
         } else if !is_encrypted {
             // This is the case where the peer possibly rebooted and chose a different
-            // random counter
+            // random counter: the window rolls back to the new location, and none of the
+            // counters just below it was received from the rebooted peer yet
             self.max_ctr = msg_ctr;
-            self.ctr_bitmap = 0xffff;
+            self.ctr_bitmap = 0;
             true
         } else {
             false
